@@ -33,6 +33,7 @@ func main() {
 	dump := flag.String("dump", "", "debug: dump SSA of rel/pkg:Func")
 	overlay := flag.String("overlay", "", "file=replacement: analyse with the file's content replaced (mutation self-test)")
 	mutantRun := flag.Bool("mutantrun", false, "internal: evaluate one mutant and print a JSON summary")
+	genTol := flag.Bool("gentolerated", false, "discovery: print the error sites of all anchor files that are not propagated (JSON for rules/tolerated_errors.json)")
 	infer := flag.String("inferguards", "", "discovery: comma-separated rel packages; print guarded-by statistics per struct field")
 	warm := flag.Bool("warm", false, "load the repository once (builds export data into the go build cache) and exit")
 	flag.Parse()
@@ -60,6 +61,16 @@ func main() {
 	}
 	if *explain != "" {
 		os.Exit(doExplain(*repo, *explain))
+	}
+	rules.LoadAnchors(*verif)
+	if *genTol {
+		w, err := kit.Load(*repo, *goos, *goarch, true)
+		if err != nil {
+			fmt.Fprintln(os.Stderr, "load failed:", err)
+			os.Exit(2)
+		}
+		rules.GenTolerated(w)
+		os.Exit(0)
 	}
 	if *infer != "" {
 		w, err := kit.Load(*repo, *goos, *goarch, true)
@@ -110,7 +121,7 @@ func main() {
 						r.Undecided(id+".R0", "checker-panic", "", fmt.Sprintf("the analysis panicked: %v", e))
 					}
 				}()
-				pp.Run(&rules.Ctx{W: w, R: r, Tier: "quick"})
+				rules.RunAll(pp, &rules.Ctx{W: w, R: r, Tier: "quick"}, *verif)
 			}()
 			if r.Finish(*verif, w, pp.Explanation, pp.NotDecided, pp.Assumptions, 0) != 0 {
 				rc = 1
@@ -152,7 +163,7 @@ func run(p *rules.Property, repo, verif, tier, goos, goarch string, seed int) (c
 		return r.Finish(verif, nil, p.Explanation, p.NotDecided, p.Assumptions, seed)
 	}
 	c := &rules.Ctx{W: w, R: r, Tier: tier}
-	p.Run(c)
+	rules.RunAll(p, c, verif)
 	variants := []string{"host"}
 	if tier == "thorough" && goos == "" && goarch == "" {
 		// build-variant matrix: the same rules on the windows and 386 file sets
@@ -170,7 +181,7 @@ func run(p *rules.Property, repo, verif, tier, goos, goarch string, seed int) (c
 				continue
 			}
 			vr := kit.NewReport(p.ID, tier)
-			p.Run(&rules.Ctx{W: vw, R: vr, Tier: tier})
+			rules.RunAll(p, &rules.Ctx{W: vw, R: vr, Tier: tier}, verif)
 			kept := 0
 			for _, o := range vr.Obs {
 				if o.Status != kit.OK || !host[o.Rule+"|"+o.Key] {
@@ -302,7 +313,7 @@ func doMutantRun(repo, verif, prop string) int {
 				r.Undecided(prop+".R0", "checker-panic", "", fmt.Sprint(e))
 			}
 		}()
-		p.Run(&rules.Ctx{W: w, R: r, Tier: "thorough"})
+		rules.RunAll(p, &rules.Ctx{W: w, R: r, Tier: "thorough"}, verif)
 	}()
 	// include instance-count failures
 	devnull, _ := os.Open(os.DevNull)
